@@ -694,6 +694,35 @@ def main(argv):
         for m in getattr(runs[u], 'skipped', []) or []:
             drift_notes.append('%s: %s' % (u, m))
     budget = 20 if tier == 'quick' else 120
+    # second back end (Kani/CBMC) for the scalar properties: loop-free full-domain harnesses over the
+    # public API.  Thorough tier: always; quick tier: only to attach CBMC's counterexample to a violation.
+    kani_res = None
+    if spec.get('kani') and (tier == 'thorough' or final_viol):
+        import kani_driver
+        try:
+            kani_res = kani_driver.run(spec['kani'])
+        except Exception as e:
+            kani_res = {'ok': None, 'error': 'kani driver: %s' % e, 'harnesses': []}
+        evidence['coverage']['second_back_end'] = {'back_end': 'Kani 0.68 / CBMC 6.11', 'harness_prefix': spec['kani'],
+                                                   'note': 'loop-free harnesses over symbolic u32 inputs on the public API: complete for their assertions',
+                                                   'ok': kani_res.get('ok'), 'error': kani_res.get('error'),
+                                                   'harnesses': [{'name': h['name'], 'ok': h['ok'], 'failed_checks': h['failed_checks']} for h in kani_res.get('harnesses', [])]}
+        with open(os.path.join(EVID, pid + '.json'), 'w') as f:
+            json.dump(evidence, f, indent=1)
+        kfail = [h for h in kani_res.get('harnesses', []) if h['ok'] is False]
+        if kfail and not final_viol:
+            # Verus discharged everything but CBMC refutes an assertion on the real code: report it
+            # (the two back ends disagree only if a contract is weaker than the harness)
+            h = kfail[0]
+            info = {'property': pid, 'obligation': 'kani:' + h['name'], 'function': h['name'], 'unit': None,
+                    'verifier_message': '; '.join(h['failed_checks']), 'verifier_output': h['playback'], 'second_back_end_counterexample': h['playback']}
+            path = write_replay(pid, 'kani_' + h['name'], info)
+            evidence['violations'] = 1
+            with open(os.path.join(EVID, pid + '.json'), 'w') as f:
+                json.dump(evidence, f, indent=1)
+            print('VIOLATION property=%s replay=%s obligation=kani:%s function=%s' % (pid, path, h['name'], h['name']))
+            print('  CBMC counterexample: ' + ' '.join(re.findall(r'// (\d+)', h['playback'])))
+            return 1
     if final_viol:
         # a failed obligation.  Without drift it is reported as it is (with a failing input when the
         # replay search finds one); when proof hints had to be skipped because the code moved away
@@ -709,12 +738,16 @@ def main(argv):
         for v in final_viol:
             info = {'property': pid, 'obligation': v['obligation'], 'function': v['function'], 'unit': v['unit'],
                     'verifier_message': v['message'], 'verifier_output': v['rendered'], 'all_failed_obligations': v.get('all_failed', []),
-                    'drift': drift_notes, 'failing_input': rs if found else None, 'replay_search': None if found else rs}
+                    'drift': drift_notes, 'failing_input': rs if found else None, 'replay_search': None if found else rs,
+                    'second_back_end_counterexample': [{'harness': h['name'], 'failed_checks': h['failed_checks'], 'playback': h['playback']} for h in (kani_res or {}).get('harnesses', []) if h['ok'] is False] or None}
             path = write_replay(pid, v['obligation'], info)
             tail = '' if found else ' no-failing-input-found'
             print('VIOLATION property=%s replay=%s obligation=%s function=%s%s' % (pid, path, v['obligation'], v['function'], tail))
             if found:
                 print('  failing input (%s): %s  expected %s  got %s' % (rs.get('oracle'), rs.get('input'), rs.get('expected'), rs.get('got')))
+        for h in (kani_res or {}).get('harnesses', []):
+            if h['ok'] is False:
+                print('  second back end (Kani/CBMC) refutes %s: %s ; counterexample values: %s' % (h['name'], '; '.join(h['failed_checks'])[:160], ' '.join(re.findall(r'// (\d+)', h['playback']))))
         return 1
     if inconclusive:
         # the verifier could not conclude (drift / front end / resource).  A concrete failing input on
